@@ -402,6 +402,19 @@ func (s *c32Sess) do(op []string) []string {
 			return []string{"err"}
 		}
 		return []string{c32DigestTok(d.String())}
+	case op[1] == "evict" && len(op) == 3:
+		// what the cache cleanup job does to an idle tag file (production TTI 6h): a flag-respecting delete
+		t, ok := c32Idx(op[2], "t", c32Tags)
+		if !ok {
+			return nil
+		}
+		if err := s.fs.DeleteCacheFile("t" + strconv.Itoa(t)); err != nil {
+			if os.IsNotExist(err) {
+				return []string{"absent"}
+			}
+			return []string{"refused"}
+		}
+		return []string{"ok"}
 	case op[1] == "fail" && len(op) == 3:
 		n, err := strconv.Atoi(op[2])
 		if err != nil || n < 0 || n > 6 {
@@ -600,7 +613,7 @@ func TestVerif_C32(t *testing.T) {
 	// (b) bounded-exhaustive histories over 2 tags x 2 digests, both modes
 	alpha := [][]string{{"op", "poll"}, {"op", "restart"}, {"op", "fail", "1"}, {"op", "fail", "3"}, {"op", "fail", "0"}}
 	for _, tg := range []string{"t0", "t1"} {
-		alpha = append(alpha, []string{"op", "get", tg}, []string{"op", "exec", tg})
+		alpha = append(alpha, []string{"op", "get", tg}, []string{"op", "exec", tg}, []string{"op", "evict", tg})
 		for _, d := range []string{"d0", "d1"} {
 			alpha = append(alpha, []string{"op", "put", tg, d, "deps=ok"})
 		}
@@ -622,10 +635,21 @@ func TestVerif_C32(t *testing.T) {
 			rec(wt, nil, d)
 		}
 	}
+	// (b') after a tag was put, written back and evicted from the node: GET falls back to the backend
+	for _, wt := range []string{"wt=0", "wt=1"} {
+		pre := [][]string{{"op", "put", "t0", "d0", "deps=ok"}, {"op", "exec", "t0"}, {"op", "evict", "t0"}}
+		for _, a := range alpha {
+			for _, b := range alpha {
+				c32Run(base, tr, verifh.Case{Cfg: []string{wt}, Ops: append(append([][]string{}, pre...), a, b)})
+				tr.Count("prefixed_exhaustive_cases", 1)
+			}
+		}
+	}
 	// (c) random histories over 3 tags x 4 digests
 	r := verifh.NewRand(verifh.Seed(), "c32")
 	for i := 0; i < verifh.Scale(300, 10000); i++ {
 		cfg := r.Pick("wt=0", "wt=0", "wt=1")
+		single := r.Chance(1, 2) // every tag is put with one digest only: evictions must then be harmless
 		var ops [][]string
 		for j := 3 + r.Intn(14); j > 0; j-- {
 			tg := "t" + strconv.Itoa(r.Intn(c32Tags))
@@ -636,14 +660,20 @@ func TestVerif_C32(t *testing.T) {
 				for k := r.Intn(4); k > 0; k-- {
 					deps = append(deps, r.Pick("ok", "ok", "ok", "ok", "nf", "err"))
 				}
-				o = []string{"op", "put", tg, "d" + strconv.Itoa(r.Intn(c32Digests)), "deps=" + verifh.List(deps)}
+				dg := r.Intn(c32Digests)
+				if single {
+					dg = int(tg[1] - '0')
+				}
+				o = []string{"op", "put", tg, "d" + strconv.Itoa(dg), "deps=" + verifh.List(deps)}
 			case x < 58:
 				o = []string{"op", "get", tg}
 			case x < 74:
 				o = []string{"op", "exec", tg}
-			case x < 82:
+			case x < 80:
 				o = []string{"op", "poll"}
-			case x < 93:
+			case x < 86:
+				o = []string{"op", "evict", tg}
+			case x < 94:
 				o = []string{"op", "fail", strconv.Itoa(r.Intn(5))}
 			default:
 				o = []string{"op", "restart"}
